@@ -174,3 +174,25 @@ def commit_refusals(tier, oid='O7', prefix='O7'):
     ob.r.bounds = {'paths': 'all', 'backends': 'sqlite and memory'}
     ob.r.assumptions += ['OpenMLS merge_staged_commit persists the new epoch and cannot be undone except by an epoch-snapshot rollback']
     return ob.done(cases=n)
+
+
+@guard
+def message_refusals(tier, oid='O8', prefix='O8'):
+    """process_application_message: message row, processed record, group pointer -- a later write must not refuse on input grounds the first one accepted"""
+    ob = Ob(oid, 'process_application_message: every input limit on which a later storage write can refuse the message (content / tags / event size, timestamps SQLite cannot hold) is already '
+                 'enforced by the first write (save_message), so a message the store refuses leaves no message row behind', pure=C.PURE_MLS)
+    profiles = {'sqlite': sqlite_profile(), 'memory': memory_profile()}
+    from props.C02 import app_args
+    f = ob.fn('mdk-core', 'application::process_application_message')
+    paths = ob.explore(f, app_args())
+    seqs = set()
+    for p in paths:
+        if p.kind == 'return' and vname(p.ret) == 'Ok':
+            s_ = tuple({'save_message_record': 'save_message', 'save_group_record': 'save_group', 'save_processed_message_record': 'save_processed_message'}.get(n, n) for n, _ in effects(p))
+            if s_:
+                seqs.add(s_)
+    ob.require(bool(seqs), f'{prefix}/vacuity', 'no successful path with effects')
+    n = check_sequences(ob, prefix, 'process_application_message', seqs, profiles, ob.r.samples, {'content', 'tags', 'event', 'created_at'})
+    ob.r.bounds = {'paths': 'all', 'backends': 'sqlite and memory'}
+    ob.r.assumptions += ['a u64 timestamp bound without conversion is refused by rusqlite above i64::MAX; the group pointer fields carry the message timestamps']
+    return ob.done(cases=n)
